@@ -645,3 +645,181 @@ Proof.
   intros now targets st P F. apply dl_defer_noop; [exact P|].
   apply Forall_forall. intros x I. rewrite forallb_forall in F. apply F. exact I.
 Qed.
+
+(* ---------------- boot events are queued too ---------------- *)
+Lemma dl_opt_eqb_eq : forall (A : Type) (eqb : A -> A -> bool),
+  (forall x y, eqb x y = true -> x = y) ->
+  forall a b, opt_eqb eqb a b = true -> a = b.
+Proof.
+  intros A eqb H [x|] [y|] E; cbn in E; try discriminate; [|reflexivity].
+  rewrite (H x y E). reflexivity.
+Qed.
+
+Lemma dl_z3_eqb_eq : forall x y, z3_eqb x y = true -> x = y.
+Proof.
+  intros [[a b] c] [[d e] f] H. unfold z3_eqb in H.
+  apply andb_true_iff in H. destruct H as [H H3].
+  apply andb_true_iff in H. destruct H as [H1 H2].
+  apply Z.eqb_eq in H1, H2, H3. subst. reflexivity.
+Qed.
+
+Lemma dl_event_eqb_eq : forall a b, event_eqb a b = true -> a = b.
+Proof.
+  intros [i1 [a1 a2 a3 a4 a5]] [i2 [b1 b2 b3 b4 b5]] H.
+  unfold event_eqb, moment_eqb in H. cbn [fst snd m_boot m_day m_dom m_dow m_time] in H.
+  apply andb_true_iff in H. destruct H as [Hi H].
+  apply andb_true_iff in H. destruct H as [H H5].
+  apply andb_true_iff in H. destruct H as [H H4].
+  apply andb_true_iff in H. destruct H as [H H3].
+  apply andb_true_iff in H. destruct H as [H1 H2].
+  apply Nat.eqb_eq in Hi.
+  apply (dl_opt_eqb_eq _ Bool.eqb eqb_prop) in H1.
+  apply (dl_opt_eqb_eq _ z3_eqb dl_z3_eqb_eq) in H2.
+  apply (dl_opt_eqb_eq _ Z.eqb (fun x y => proj1 (Z.eqb_eq x y))) in H3.
+  apply (dl_opt_eqb_eq _ Z.eqb (fun x y => proj1 (Z.eqb_eq x y))) in H4.
+  apply (dl_opt_eqb_eq _ z3_eqb dl_z3_eqb_eq) in H5.
+  subst. reflexivity.
+Qed.
+
+Lemma dl_is_booted_in : forall e b, is_booted e b = true <-> In e b.
+Proof.
+  intros e b. unfold is_booted. rewrite existsb_exists. split.
+  - intros [x [I Q]]. apply dl_event_eqb_eq in Q. subst. exact I.
+  - intro I. exists e. split; [exact I|apply dl_event_eqb_refl].
+Qed.
+
+(* delay only ever adds the evaluated event to booted *)
+Lemma dl_booted_adds : forall booted e now x,
+  In x (snd (delay booted e now)) -> In x booted \/ x = e.
+Proof.
+  intros booted e now x. unfold delay. destruct (m_boot (snd e)).
+  - destruct (existsb (event_eqb e) booted); cbn [snd]; intro I; [left; exact I|].
+    apply in_app_or in I. destruct I as [I|[I|[]]]; [left; exact I|right; congruence].
+  - destruct (delay_then (snd e) now); cbn [snd]; intro I; left; exact I.
+Qed.
+
+Lemma dl_enqueue_booted : forall targets id st, s_booted (enqueue targets id st) = s_booted st.
+Proof. reflexivity. Qed.
+
+Lemma dl_run_period_booted : forall now targets id ps st dl st' dl' e x,
+  run_period now targets id ps st dl = (st', dl', e) ->
+  In x (s_booted st') -> In x (s_booted st) \/ In x ps.
+Proof.
+  induction ps as [|p ps IH]; cbn [run_period]; intros st dl st' dl' e x R I.
+  - inversion R; subst. left. exact I.
+  - destruct (delay (s_booted st) p now) as [r b'] eqn:D.
+    assert (B : forall y, In y b' -> In y (s_booted st) \/ y = p).
+    { intros y Iy. apply (dl_booted_adds (s_booted st) p now y). rewrite D. exact Iy. }
+    destruct r as [th d| |er].
+    + destruct (d <=? WINDOW_US); apply (IH _ _ _ _ _ x R) in I;
+        (destruct I as [I|I]; [|right; right; exact I]);
+        cbn [s_booted enqueue set_booted upd set_que] in I;
+        (destruct (B x I) as [K|K]; [left; exact K|right; left; congruence]).
+    + (* NotKnowable: booted unchanged in the continuation *)
+      apply (IH _ _ _ _ _ x R) in I. destruct I as [I|I]; [left; exact I|right; right; exact I].
+    + inversion R; subst. left. exact I.
+Qed.
+
+Lemma dl_run_period_boot_due : forall now targets id ps st dl st' dl' p,
+  run_period now targets id ps st dl = (st', dl', None) ->
+  In p ps -> m_boot (snd p) <> None -> ~ In p (s_booted st) ->
+  queued targets id st'.
+Proof.
+  induction ps as [|q ps IH]; cbn [run_period]; intros st dl st' dl' p R I B NB; [contradiction|].
+  destruct (event_eqb p q) eqn:PQ.
+  - apply dl_event_eqb_eq in PQ. subst q.
+    assert (X : is_booted p (s_booted st) = false).
+    { destruct (is_booted p (s_booted st)) eqn:E; [|reflexivity].
+      apply dl_is_booted_in in E. contradiction. }
+    destruct (dl_boot p now (s_booted st) B) as [A _]. rewrite (A X) in R.
+    assert (W : (0 <=? WINDOW_US) = true) by reflexivity. rewrite W in R.
+    eapply dl_run_period_keeps; [exact R|]. apply dl_enqueue_queued.
+  - destruct I as [I|I]; [subst; rewrite dl_event_eqb_refl in PQ; discriminate|].
+    destruct (delay (s_booted st) q now) as [r b'] eqn:D.
+    assert (NB' : ~ In p b').
+    { intro K. destruct (dl_booted_adds (s_booted st) q now p) as [K1|K1];
+        [rewrite D; exact K|contradiction|].
+      subst. rewrite dl_event_eqb_refl in PQ. discriminate. }
+    destruct r as [th d| |er].
+    + destruct (d <=? WINDOW_US); eapply IH; eauto.
+    + (* NotKnowable leaves booted as it was *)
+      eapply IH; eauto.
+    + discriminate.
+Qed.
+
+Lemma dl_enqueue_period : forall targets id st k,
+  nd_period (s_node (enqueue targets id st) k) = nd_period (s_node st k).
+Proof.
+  intros. unfold enqueue. cbn [s_node upd set_que]. destruct (Nat.eqb k id); reflexivity.
+Qed.
+
+Lemma dl_run_period_period : forall now targets id ps st dl st' dl' e k,
+  run_period now targets id ps st dl = (st', dl', e) ->
+  nd_period (s_node st' k) = nd_period (s_node st k).
+Proof.
+  induction ps as [|p ps IH]; cbn [run_period]; intros st dl st' dl' e k R.
+  - inversion R; subst. reflexivity.
+  - destruct (delay (s_booted st) p now) as [[th d| |er] b'].
+    + destruct (d <=? WINDOW_US); rewrite (IH _ _ _ _ _ k R);
+        [rewrite dl_enqueue_period|]; reflexivity.
+    + apply (IH _ _ _ _ _ k R).
+    + inversion R; subst. reflexivity.
+Qed.
+
+Lemma dl_run_per_boot_due : forall now targets ids st dl st' dl' id p,
+  run_per now targets ids st dl = (st', dl', None) ->
+  In id ids -> skipped (nd_status (s_node st id)) = false ->
+  In p (nd_period (s_node st id)) -> m_boot (snd p) <> None ->
+  ~ In p (s_booted st) ->
+  (forall k, k <> id -> ~ In p (nd_period (s_node st k))) ->
+  queued targets id st'.
+Proof.
+  induction ids as [|k ids IH]; cbn [run_per]; intros st dl st' dl' id p R I S P B NB O;
+    [contradiction|].
+  destruct (Nat.eq_dec k id) as [->|N].
+  - rewrite S in R.
+    set (st1 := upd id (with_status St_delayed) st) in *.
+    assert (P1 : nd_period (s_node st1 id) = nd_period (s_node st id)).
+    { unfold st1. cbn [s_node upd]. rewrite Nat.eqb_refl. reflexivity. }
+    destruct (run_period now targets id (nd_period (s_node st1 id)) st1 dl)
+      as [[st2 dl2] [er|]] eqn:RP; [discriminate|].
+    eapply dl_run_per_keeps; [exact R|].
+    eapply dl_run_period_boot_due; [exact RP|rewrite P1; exact P|exact B|exact NB].
+  - destruct I as [I|I]; [contradiction|].
+    destruct (skipped (nd_status (s_node st k))) eqn:S'; [eapply IH; eauto|].
+    set (st1 := upd k (with_status St_delayed) st) in *.
+    assert (PK : forall j, nd_period (s_node st1 j) = nd_period (s_node st j)).
+    { intro j. unfold st1. cbn [s_node upd]. destruct (Nat.eqb j k); reflexivity. }
+    destruct (run_period now targets k (nd_period (s_node st1 k)) st1 dl)
+      as [[st2 dl2] [er|]] eqn:RP; [discriminate|].
+    assert (K : s_node st2 id = s_node st id).
+    { rewrite (dl_run_period_node_other _ _ _ _ _ _ _ _ _ id RP) by congruence.
+      unfold st1. cbn [s_node upd].
+      destruct (Nat.eqb id k) eqn:X; [apply Nat.eqb_eq in X; congruence|reflexivity]. }
+    assert (P2 : forall j, nd_period (s_node st2 j) = nd_period (s_node st j)).
+    { intro j. rewrite (dl_run_period_period _ _ _ _ _ _ _ _ _ j RP). apply PK. }
+    eapply IH; [exact R|exact I| | |exact B| |].
+    + rewrite K. exact S.
+    + rewrite K. exact P.
+    + intro X. destruct (dl_run_period_booted _ _ _ _ _ _ _ _ _ p RP X) as [Y|Y].
+      * apply NB. exact Y.
+      * rewrite PK in Y. apply (O k N). exact Y.
+    + intros j Nj. rewrite P2. apply O. exact Nj.
+Qed.
+
+(* a boot event that has not fired yet queues its node (the event belongs to
+   that node only) *)
+Theorem dl_due_queues_boot : forall now targets st st' id p,
+  s_paused st = false ->
+  defer now targets st = (st', None) ->
+  In id (s_per st) -> skipped (nd_status (s_node st id)) = false ->
+  In p (nd_period (s_node st id)) -> m_boot (snd p) <> None ->
+  ~ In p (s_booted st) ->
+  (forall k, k <> id -> ~ In p (nd_period (s_node st k))) ->
+  queued targets id st'.
+Proof.
+  intros now targets st st' id p Pz D I S P B NB O. unfold defer in D. rewrite Pz in D.
+  destruct (run_per now targets (s_per st) st []) as [[st2 dl2] [er|]] eqn:R; [discriminate|].
+  assert (Q : queued targets id st2) by (eapply dl_run_per_boot_due; eauto).
+  inversion D; subst. destruct dl2; [exact Q|apply dl_add_timer_keeps; exact Q].
+Qed.
